@@ -1,5 +1,7 @@
 import AvroModel.Theorems.C20
 import AvroModel.Theorems.C20inv
+import AvroModel.Theorems.C20names
+import AvroModel.Theorems.C20fits
 /-
 C20 — derived schemas fit their types, all parts together:
 * `Theorems/C20.lean`: the reuse discipline of `find_or_build` (a registered type is never built
@@ -7,5 +9,15 @@ C20 — derived schemas fit their types, all parts together:
 * `Theorems/C20inv.lean`: for EVERY program, type, hash function and fuel — the builder is
   append-only, every successful build has all its keys in bounds and its root at node 0, the
   result does not depend on the fuel (the build is a deterministic function of the program), and a
-  type built once is found again unchanged.
+  type built once is found again unchanged;
+* `Theorems/C20names.lean`: one definition per fullname (`C20_names_distinct`) for every program
+  satisfying the explicit program-text predicate `NamesWf` (distinct declared names, distinct
+  field / variant identifiers, an injective dot-free instantiation hash, and the three structural
+  exclusions that the negation witnesses show to be necessary); distinct generic instantiations
+  get distinct names; witnesses for D22, D23 (old behaviour) and for the open D24 / D26 shapes;
+* `Theorems/C20fits.lean`: every value of a type in the fragment `FitWf` (resp. `FitWfU` with the
+  hypothesis that variant names select their own branch) serializes under the derived schema
+  (`C20_fits`, `C20_fits_unions`), through `Realizes` (the derived graph realises the type);
+  the round-trip half then follows from C01/C02 on that schema and is checked per generated
+  value by the `derive` stream.
 -/
